@@ -6,6 +6,7 @@ toolchain go1.26.8
 
 require (
 	github.com/anishathalye/porcupine v1.3.0
+	github.com/go-logr/logr v1.4.2
 	go.opentelemetry.io/otel v1.35.0
 	go.opentelemetry.io/otel/exporters/otlp/otlplog/otlploggrpc v0.0.0
 	go.opentelemetry.io/otel/exporters/otlp/otlplog/otlploghttp v0.0.0
@@ -28,7 +29,6 @@ require (
 )
 
 require (
-	github.com/go-logr/logr v1.4.2 // indirect
 	github.com/go-logr/stdr v1.2.2 // indirect
 	github.com/google/uuid v1.6.0 // indirect
 	go.opentelemetry.io/auto/sdk v1.1.0 // indirect
